@@ -156,9 +156,13 @@ func Add(api ClientApi) http.HandlerFunc {
 				http.Error(w, err.Error(), http.StatusInternalServerError)
 				return
 			}
+			// The redirect (status and Location) has to go out before the
+			// body: writing the body first sends "200 OK" and the client
+			// takes the cluster description for the answer to its request.
 			w.Header().Set("Content-Type", "application/json")
+			w.Header().Set("Location", fmt.Sprintf("%s://%s", scheme, shards.Shards[shards.LeaderId].HTTPAddr))
+			w.WriteHeader(http.StatusMovedPermanently)
 			_, _ = w.Write(out)
-			http.Redirect(w, r, shards.Shards[shards.LeaderId].HTTPAddr, http.StatusMovedPermanently)
 			return
 		default:
 			http.Error(w, err.Error(), http.StatusPreconditionFailed)
@@ -243,9 +247,13 @@ func AddBulk(api ClientApi) http.HandlerFunc {
 				http.Error(w, err.Error(), http.StatusInternalServerError)
 				return
 			}
+			// The redirect (status and Location) has to go out before the
+			// body: writing the body first sends "200 OK" and the client
+			// takes the cluster description for the answer to its request.
 			w.Header().Set("Content-Type", "application/json")
+			w.Header().Set("Location", fmt.Sprintf("%s://%s", scheme, shards.Shards[shards.LeaderId].HTTPAddr))
+			w.WriteHeader(http.StatusMovedPermanently)
 			_, _ = w.Write(out)
-			http.Redirect(w, r, shards.Shards[shards.LeaderId].HTTPAddr, http.StatusMovedPermanently)
 			return
 		default:
 			http.Error(w, err.Error(), http.StatusPreconditionFailed)
